@@ -173,6 +173,17 @@ def _loop (ctx, repo, f, L):
   for n, c in L.deliver:
     good = norm(c.args[-1]) == L.msgvar or L.msgvar in [norm(a) for a in c.args]
     dec_dom = any(g.dominates(d[0], n) for d in L.decode)
+    if not dec_dom and any(g.dominates(d[0], n, exc=False) for d in L.decode):
+      # the decode sits in a try: the delivery is not reached from its handler (by evaluation - a handler that marks the failure,
+      # `new_offset = None`, and the length comparison behind it send the iteration to the error path)
+      def hookN_ (call, env=None): return (True, None) if call_name(call) == '_error_handler' else (False, None)
+      via = []
+      for d in L.decode:
+        for h_ in g.handlers_for(d[0]):
+          ps_ = q.paths_under(repo, mod, g, q.Env({L.wlen: 12} if L.wlen else {}, [], hookN_), h_, [n, L.head, L.after, g.exit, g.raise_exit], f.cls, limit=200, track_start=True)
+          if not ps_ or len(ps_) >= 200: via.append(None)
+          else: via += [p_ for p_, e_ in ps_ if p_[-1] is n]
+      if not via: dec_dom = True
     ctx.ob('R-ORDER', f, "the delivered object is the one just decoded", good and dec_dom, "decode dominates delivery of %s" % L.msgvar, (mod, c), 'D5')
   # a delivery that raised must not end the loop: the complete messages behind it in the buffer are still owed
   # (decided with the error handler's summary for the constant reason it is called with)
